@@ -332,6 +332,8 @@ def run_direct(ck, cases, houts, crashes, model, base):
             ck.nontriv(harness_line(c))
         mlines.append("M %d %d %s %s %s" % (c["perc"], c["gap"], T0s, V0s, " ".join(toks)))
         metas.append((c, obs))
+    if not mlines:
+        return
     rc, mout, merr = vv.run_lines(model, "\n".join(mlines) + "\n")
     if rc != 0 or len(mout) != len(mlines):
         raise vv.BuildError("model driver failed: rc=%s %s" % (rc, merr[:500]))
@@ -525,8 +527,35 @@ def run_search(ck, cases, houts, crashes, model, base):
 
 
 # --------------------------------------------------------------------- main
+def build_tree():
+    """library + harness from the current tree.  The snapshot/library caches under .build are shared by all
+    checks and garbage-collected by whichever check runs: when the snapshot this run uses disappears under
+    our feet (a source file of the tree is missing from the snapshot) the build is simply repeated; a real
+    build failure of the tree is re-raised."""
+    import os
+    import time
+    for attempt in range(4):
+        try:
+            L = vv.build_lib("asan")
+            if os.path.getsize(L["lib"]) < 100000:
+                raise vv.BuildError("empty library (snapshot vanished)")
+            return vv.build_harness("h_valid")
+        except vv.BuildError:
+            snap = os.path.join(vv.BUILD, "src-" + vv.src_hash())
+            intact = all(os.path.exists(os.path.join(snap, os.path.relpath(f, os.path.join(vv.REPO, "src"))))
+                         for f in vv._src_files())
+            lib = os.path.join(vv.BUILD, "lib-%s-asan" % vv.src_hash(), "libvita.a")
+            empty = os.path.exists(lib) and os.path.getsize(lib) < 100000
+            if (intact and not empty) or attempt == 3:
+                raise
+            if empty:
+                import shutil
+                shutil.rmtree(os.path.dirname(lib), ignore_errors=True)
+            time.sleep(1 + attempt)
+
+
 def run(ck):
-    vv.build_lib("asan")
+    harness = build_tree()
     res = vv.prove("Properties_C16", vv.FLOCQ_AXIOMS)
     ck.add_proof(res)
     # what is false of the pinned tree's model (the typeid finding), kept as machine-checked witnesses
@@ -538,12 +567,16 @@ def run(ck):
         "H_draws: random::sup(k) returns 0 <= r < k (a draw outside the range is an error outcome of the model, "
         "the theorems' progress parts assume it); boolean draws are unconstrained (the theorems hold for every "
         "outcome, whatever the probability)",
-        "H_target: static_cast<ptrdiff_t>(target_size) of dss::shake_impl, as a function tsz of the size s, satisfies "
-        "1 <= tsz s < s for s >= 2 (hypothesis of the non-emptiness theorems); proved for the exact rational "
-        "value target_q for all s, and checked against binary64 arithmetic (python doubles, harness) on every run",
+        "H_target: static_cast<ptrdiff_t>(target_size) of dss::shake_impl, as a function tsz of the number n of "
+        "examples, satisfies 1 <= tsz n < n (hypothesis target_ok of the non-emptiness / definedness theorems); proved "
+        "for the exact rational value target_q for every n >= 2, and for the binary64 evaluation of the C++ "
+        "expression (Flocq, tsz_f64, the function the extracted model runs) for n < 5000 (..._binary64_partial); "
+        "beyond that binary64 is compared with target_q on every run (python doubles up to 200000 / 3*10^6, the "
+        "C++ expression compiled with the library's flags on 4000 sizes)",
+        "the four Flocq/stdlib axioms are printed only by the two ..._binary64_partial theorems; all others are "
+        "closed under the global context",
         "evaluators are abstracted to counters of clear() calls; examples to (uid, opaque payload, difficulty, age)"]
 
-    harness = vv.build_harness("h_valid")
     model = vv.ocaml_model("Valid")
 
     rng = ck.rng
